@@ -402,6 +402,29 @@ func (e *regEnv) oraclePin(ctx *Ctx) {
 			ext("masktype", fmt.Sprintf("%s=0x%06X", t.Name, t.Value))
 		}
 	}
+	// `equal` is an equality of INDEXES on the Lean side (equalsRegistry): a pinned enumeration / mask whose table is
+	// not live at all - possible without `covers` failing when the pinned table is empty, as OpaqueDataType's - makes
+	// it false (information, like an extension: an absent table and an empty one answer every question alike)
+	liveTab := map[int]bool{}
+	for _, en := range e.dump.Enums {
+		liveTab[en.Tag] = true
+	}
+	for _, t := range p.enumTags {
+		if !liveTab[t] {
+			equal = false
+			ctx.Res.Count(fmt.Sprintf("pin.table-not-live:enum:0x%06X", t))
+		}
+	}
+	liveTab = map[int]bool{}
+	for _, m := range e.dump.Bitmasks {
+		liveTab[m.Tag] = true
+	}
+	for _, t := range p.maskTags {
+		if !liveTab[t] {
+			equal = false
+			ctx.Res.Count(fmt.Sprintf("pin.table-not-live:mask:0x%06X", t))
+		}
+	}
 	// the pin's own index must not list an enumeration / mask twice for `equal` (the Lean checker demands it)
 	ctx.Res.Count(fmt.Sprintf("registry.covers-pin=%v", covers))
 	ctx.Res.Count(fmt.Sprintf("registry.equals-pin=%v", equal))
